@@ -28,6 +28,9 @@ def _unwrap_check_and_cast(method):
         x: ArrayLike,
         condition: ArrayLike | None = None,
     ):
+        # Unwrap first: shape/cond_shape may be properties reading wrapped sub-bijections
+        bijection = unwrap(bijection)
+
         # TODO This can be simplified significantly if we use beartype
         def _check_condition(condition):
             if bijection.cond_shape is None:
@@ -59,7 +62,7 @@ def _unwrap_check_and_cast(method):
                 )
             return x
 
-        return method(unwrap(bijection), _check_x(x), _check_condition(condition))
+        return method(bijection, _check_x(x), _check_condition(condition))
 
     return wrapper
 
